@@ -14,7 +14,9 @@ import argparse, concurrent.futures as cf, fcntl, glob, hashlib, json, os, re, s
 VERIF = os.path.dirname(os.path.abspath(__file__))
 REPO = os.environ.get("VERIF_REPO", "/repo")
 BUILD = os.path.join(VERIF, "build")
-WORK = os.path.join(VERIF, "work")
+SCRATCH = os.path.realpath(REPO) != "/repo"   # checking a scratch copy (mutant): keep its output away from the real evidence
+OUT = os.path.join("/tmp", "verif-out-" + hashlib.sha256(os.path.realpath(REPO).encode()).hexdigest()[:10]) if SCRATCH else VERIF
+WORK = os.path.join(OUT, "work")
 NCPU = os.cpu_count() or 8
 CXX = "clang++"
 
@@ -94,13 +96,14 @@ def run_cc(cmd):
 
 
 def prune_builds(keep):
-    """keep the most recently used build directories only (disk is limited)"""
+    """keep the most recently used build directories only (disk is limited); never touch one used in the last 3 hours"""
     try:
         dirs = [os.path.join(BUILD, d) for d in os.listdir(BUILD) if not d.startswith(".")]
         dirs = [d for d in dirs if os.path.isdir(d)]
         dirs.sort(key=lambda d: os.path.getmtime(d), reverse=True)
         for d in dirs[keep:]:
-            shutil.rmtree(d, ignore_errors=True)
+            if time.time() - os.path.getmtime(d) > 3 * 3600:
+                shutil.rmtree(d, ignore_errors=True)
     except OSError:
         pass
 
@@ -143,7 +146,7 @@ def build_lib(cfg):
             raise SystemExit(2)
         open(os.path.join(d, ".ok"), "w").write("ok")
         log("[build] libtins %s built in %.1fs -> %s" % (cfg, time.time() - t0, d))
-        prune_builds(6)
+        prune_builds(12)
         return d
 
 
@@ -204,11 +207,19 @@ def build_prop(pid, want_fuzz=True):
 def known_findings(pid):
     """open findings (suppress + KNOWN-FINDING line) and fixed ones (informational)"""
     p = os.path.join(VERIF, "known_findings.json")
-    if not os.path.exists(p):
-        return [], []
-    with open(p) as f:
-        k = json.load(f)
+    k = {}
+    if os.path.exists(p):
+        with open(p) as f:
+            k = json.load(f)
     ents = [e for e in k.get("findings", []) if e.get("property") == pid]
+    pend = os.path.join(VERIF, "findings", pid + ".pending.json")
+    if os.path.exists(pend):
+        # findings recorded while a check is being built, waiting for a fix/open decision (treated as open)
+        for e in json.load(open(pend)):
+            e = dict(e)
+            e.setdefault("status", "open")
+            e.setdefault("property", pid)
+            ents.append(e)
     return [e for e in ents if e.get("status") == "open"], [e for e in ents if e.get("status") == "fixed"]
 
 
@@ -307,7 +318,7 @@ def merge_stats(files, bins):
             for a, b in s.get(k, {}).items():
                 tot[k][a] = tot[k].get(a, 0) + b
         for x in s.get("samples", []):
-            if len(tot["samples"]) < 12:
+            if len(tot["samples"]) < 12 and x not in tot["samples"]:
                 tot["samples"].append(x)
         if os.path.exists(f + ".hashes"):
             hashfiles.append(f + ".hashes")
@@ -360,6 +371,47 @@ def run_worker_slot(bins, mode, w, nworkers, seed, cases, max_seconds, tier, wor
                 lines = open(ft, errors="replace").read().split("\n")
                 sig, msg = lines[0], (lines[1] if len(lines) > 1 else "")
             fails.append(Failure(fb, sig, msg, "random-driver"))
+            break
+        if rc == 5:
+            # leak somewhere in the last window of cases: bisect with fresh processes (LeakSanitizer decides at exit)
+            wp = os.path.join(workdir, "leakwindow.%d.bin" % wid)
+            raw = open(wp, "rb").read() if os.path.exists(wp) else b""
+            items, off = [], 0
+            while off + 4 <= len(raw):
+                n = int.from_bytes(raw[off:off + 4], "little")
+                items.append(raw[off + 4:off + 4 + n])
+                off += 4 + n
+
+            def leaks(lo, hi):
+                r = subprocess.run([bins["rand"], "--window", wp, "--lo", str(lo), "--hi", str(hi), "--known", known_path, "--tier", tier],
+                                   stdout=subprocess.PIPE, stderr=subprocess.STDOUT, env=env_for(workdir, tier, known_path), errors="replace")
+                return r.returncode != 0
+            culprit = None
+            if items and leaks(0, len(items)):
+                lo, hi = 0, len(items)
+                while hi - lo > 1:
+                    mid = (lo + hi) // 2
+                    if leaks(lo, mid):
+                        hi = mid
+                    elif leaks(mid, hi):
+                        lo = mid
+                    else:
+                        break
+                if hi - lo == 1:
+                    culprit = lo
+            if culprit is None:
+                fails.append(Failure(wp, bins["pid"] + ":leak:unattributed", "LeakSanitizer reported a leak in a window of %d cases but no single case reproduces it" % len(items), "timeout"))
+                break
+            ip = os.path.join(workdir, "leakcase.%d.bin" % wid)
+            open(ip, "wb").write(items[culprit])
+            st, sig, msg, out = replay_once(bins, ip, workdir, tier, known_path)
+            if st in ("crash", "fail") and sig and sig_known(sig, known_sigs) or st == "known":
+                known_crashes[sig] = known_crashes.get(sig, 0) + 1
+                epoch += 1
+                if time.time() > deadline or epoch > 50:
+                    break
+                continue
+            fails.append(Failure(ip, sig or (bins["pid"] + ":leak"), msg, "random-driver-leak"))
             break
         # died: sanitizer abort, signal or hang -> recover the input from the shared page
         cur = os.path.join(workdir, "current.%d" % wid)
@@ -628,8 +680,8 @@ def check(pid, tier, seed):
         "wall_s": round(wall, 2),
         "violations": len(violations),
     }
-    os.makedirs(os.path.join(VERIF, "evidence"), exist_ok=True)
-    evp = os.path.join(VERIF, "evidence", pid + ".json")
+    os.makedirs(os.path.join(OUT, "evidence"), exist_ok=True)
+    evp = os.path.join(OUT, "evidence", pid + ".json")
     with open(evp + ".tmp", "w") as f:
         json.dump(ev, f, indent=1)
     os.replace(evp + ".tmp", evp)
